@@ -6,7 +6,7 @@
    returns).  Only pinned statements here; proofs in proofs/{TrackNetP,EstNetP,EstTimeP,OrdP}.v. *)
 From Coq Require Import Reals List Bool Arith ZArith Floats Uint63.
 From AltModel Require Import Num TrackNet EstNet EstUpdate.
-From AltProofs Require Import TrackNetP EstNetP EstTimeP OrdP EstUpdateP.
+From AltProofs Require Import TrackNetP EstNetP EstTimeP OrdP EstUpdateP EstUpdateWitness.
 Import ListNotations.
 Open Scope nat_scope.
 
@@ -76,3 +76,13 @@ Theorem C15_update_passes_keep_events :
   forall i a a', nth_error ns i = Some a -> nth_error ns' i = Some a' ->
     n_link a' = n_link a /\ n_ty a' = n_ty a /\ n_nexta a' = n_nexta a /\ n_preva a' = n_preva a.
 Proof. intros F NO. exact (@update_times_frame F NO). Qed.
+
+(* known finding C15/1 at the level of the model of the passes: innocent inputs (departure time 0, non-negative
+   durations; the 14-node array of a line with one siding exactly as make_est_times hands it over), accepted by both
+   passes, and a negative scheduled time in the result - the clause "all scheduled times non-negative" is FALSE of the
+   faithful model, as it is of the code (the real passes give bit-identical output on this array) *)
+Theorem C15_sched_nonneg_refuted :
+  EstUpdateWitness.all_input_times_nonneg = true /\
+  exists ns', update_times 66 EstUpdateWitness.w_nodes EstUpdateWitness.w_set EstUpdateWitness.w_t0 = Ok ns' /\
+              EstUpdateWitness.some_negative ns' = true.
+Proof. split; [exact EstUpdateWitness.witness_input_ok|exact EstUpdateWitness.update_times_negative_sched_witness]. Qed.
